@@ -5,7 +5,225 @@ import GrafeoModel.Model.Val
 
 Floats are bit patterns; every theorem quantifies over **all** 2^64 patterns (NaN payloads,
 signed zeros, infinities, subnormals) and all integers.
+
+`OrderableValue` is modelled as repaired (exact Int64/Float64 comparison, a float that equals an
+integer hashes as that integer). Its three laws are proved for every value of the type through an
+order key: `ovKey` sends a value to (class, exact numeric value · 2^1074, bytes); `==` is equality
+of keys and `cmp` is the lexicographic comparison of keys. The definitions of the code before the
+repair live in `Grafeo.Val.Old` with the two witnesses that refuted the laws there.
 -/
+
+set_option exponentiation.threshold 4096
+
+/-! ### exact values of bit patterns (`Model/F64.lean`: `absScaled`, `scaled`, `truncBits`) -/
+
+namespace Grafeo.F64
+
+theorem mag_decomp (b : Nat) :
+    mag b = expField b * 2 ^ 52 + fracField b ∧ fracField b < 2 ^ 52 ∧ expField b < 2 ^ 11 := by
+  unfold mag expField fracField; omega
+
+theorem signBit_lt (b : Nat) : signBit b = 0 ∨ signBit b = 1 := by unfold signBit; omega
+
+theorem two_pow_pred_le {e1 e2 : Nat} (h1 : 1 ≤ e1) (h : e1 < e2) : 2 * 2 ^ (e1 - 1) ≤ 2 ^ (e2 - 1) := by
+  have : 2 * 2 ^ (e1 - 1) = 2 ^ e1 := by
+    have : e1 = (e1 - 1) + 1 := by omega
+    conv => rhs; rw [this, Nat.pow_succ]
+    omega
+  rw [this]
+  exact Nat.pow_le_pow_right (by decide) (by omega)
+
+/-- the exact magnitude is strictly monotone in the 63-bit magnitude pattern -/
+theorem absScaled_strictMono {x y : Nat} (h : mag x < mag y) : absScaled x < absScaled y := by
+  obtain ⟨hx, hfx, _⟩ := mag_decomp x
+  obtain ⟨hy, hfy, _⟩ := mag_decomp y
+  unfold absScaled sig
+  generalize expField x = e1 at *
+  generalize expField y = e2 at *
+  generalize fracField x = f1 at *
+  generalize fracField y = f2 at *
+  have hcase : e1 < e2 ∨ (e1 = e2 ∧ f1 < f2) := by omega
+  rcases hcase with hlt | ⟨heq, hf⟩
+  · have hp2 : 0 < 2 ^ (e2 - 1) := Nat.two_pow_pos _
+    have he2 : e2 ≠ 0 := by omega
+    simp only [he2, if_false]
+    by_cases he1 : e1 = 0
+    · subst he1
+      simp only [if_true]
+      have : 2 ^ 52 * 1 ≤ (2 ^ 52 + f2) * 2 ^ (e2 - 1) :=
+        Nat.mul_le_mul (by omega) hp2
+      simp only [Nat.zero_sub, Nat.pow_zero, Nat.mul_one] at *
+      omega
+    · simp only [he1, if_false]
+      have hp1 : 0 < 2 ^ (e1 - 1) := Nat.two_pow_pos _
+      have hle := two_pow_pred_le (by omega : 1 ≤ e1) hlt
+      have a1 : (2 ^ 52 + f1) * 2 ^ (e1 - 1) < 2 ^ 53 * 2 ^ (e1 - 1) :=
+        Nat.mul_lt_mul_of_pos_right (by omega) hp1
+      have a2 : 2 ^ 52 * (2 * 2 ^ (e1 - 1)) ≤ 2 ^ 52 * 2 ^ (e2 - 1) := Nat.mul_le_mul_left _ hle
+      have a3 : 2 ^ 52 * 2 ^ (e2 - 1) ≤ (2 ^ 52 + f2) * 2 ^ (e2 - 1) := Nat.mul_le_mul_right _ (by omega)
+      generalize 2 ^ (e1 - 1) = p1 at *
+      generalize 2 ^ (e2 - 1) = p2 at *
+      generalize (2 ^ 52 + f1) * p1 = l at *
+      generalize (2 ^ 52 + f2) * p2 = r at *
+      omega
+  · subst heq
+    have hp : 0 < 2 ^ (e1 - 1) := Nat.two_pow_pos _
+    by_cases he1 : e1 = 0
+    · simp only [he1, if_true]
+      exact Nat.mul_lt_mul_of_pos_right hf (Nat.two_pow_pos _)
+    · simp only [he1, if_false]
+      exact Nat.mul_lt_mul_of_pos_right (by omega) hp
+
+
+theorem absScaled_congr {x y : Nat} (h : mag x = mag y) : absScaled x = absScaled y := by
+  have hx := mag_decomp x
+  have hy := mag_decomp y
+  have he : expField x = expField y := by omega
+  have hf : fracField x = fracField y := by omega
+  unfold absScaled sig; rw [he, hf]
+
+theorem absScaled_lt_iff (x y : Nat) : absScaled x < absScaled y ↔ mag x < mag y := by
+  constructor
+  · intro h
+    rcases Nat.lt_trichotomy (mag x) (mag y) with h1 | h1 | h1
+    · exact h1
+    · have := absScaled_congr h1; omega
+    · have := absScaled_strictMono h1; omega
+  · exact absScaled_strictMono
+
+theorem absScaled_eq_iff (x y : Nat) : absScaled x = absScaled y ↔ mag x = mag y := by
+  constructor
+  · intro h
+    rcases Nat.lt_trichotomy (mag x) (mag y) with h1 | h1 | h1
+    · have := absScaled_strictMono h1; omega
+    · exact h1
+    · have := absScaled_strictMono h1; omega
+  · exact absScaled_congr
+
+theorem absScaled_eq_zero_iff (x : Nat) : absScaled x = 0 ↔ mag x = 0 := by
+  have h := absScaled_eq_iff x 0
+  have h0 : absScaled 0 = 0 := by decide
+  have m0 : mag 0 = 0 := by decide
+  rw [h0, m0] at h; exact h
+
+/-- the sign–magnitude key orders bit patterns exactly as their values are ordered -/
+theorem key_lt_iff (a b : Nat) : key a < key b ↔ scaled a < scaled b := by
+  have h1 := absScaled_lt_iff a b
+  have h2 := absScaled_lt_iff b a
+  have za := absScaled_eq_zero_iff a
+  have zb := absScaled_eq_zero_iff b
+  unfold key scaled
+  generalize absScaled a = x at *
+  generalize absScaled b = y at *
+  split <;> split <;> omega
+
+theorem key_eq_iff (a b : Nat) : key a = key b ↔ scaled a = scaled b := by
+  have h1 := absScaled_eq_iff a b
+  have za := absScaled_eq_zero_iff a
+  have zb := absScaled_eq_zero_iff b
+  unfold key scaled
+  generalize absScaled a = x at *
+  generalize absScaled b = y at *
+  split <;> split <;> omega
+
+theorem key_le_iff (a b : Nat) : key a ≤ key b ↔ scaled a ≤ scaled b := by
+  have h1 := key_lt_iff b a
+  omega
+
+theorem compare_congr {a b c d : Int} (hlt : a < b ↔ c < d) (heq : a = b ↔ c = d) :
+    compare a b = compare c d := by
+  rcases Int.lt_trichotomy a b with h | h | h
+  · rw [Int.compare_eq_lt.mpr h, Int.compare_eq_lt.mpr (hlt.mp h)]
+  · rw [Int.compare_eq_eq.mpr h, Int.compare_eq_eq.mpr (heq.mp h)]
+  · have : d < c := by omega
+    rw [Int.compare_eq_gt.mpr h, Int.compare_eq_gt.mpr this]
+
+theorem compare_key (a b : Nat) : compare (key a) (key b) = compare (scaled a) (scaled b) :=
+  compare_congr (key_lt_iff a b) (key_eq_iff a b)
+
+/-- a non-NaN pattern is at most infinity in magnitude -/
+theorem scaled_bound (b : Nat) (h : isNaN b = false) :
+    -(2 ^ 2098 : Int) ≤ scaled b ∧ scaled b ≤ 2 ^ 2098 := by
+  have hm : ¬ mag 0x7FF0000000000000 < mag b := by
+    have hd := mag_decomp b
+    have : mag 0x7FF0000000000000 = 2047 * 2 ^ 52 := by decide
+    rw [this]
+    unfold isNaN at h
+    by_cases he : expField b = 2047
+    · simp [he] at h; omega
+    · omega
+  have hA : ¬ absScaled 0x7FF0000000000000 < absScaled b := fun hh => hm ((absScaled_lt_iff _ _).mp hh)
+  have hI : absScaled 0x7FF0000000000000 = 2 ^ 2098 := by decide
+  rw [hI] at hA
+  unfold scaled
+  split <;> omega
+
+
+/-- `trunc` keeps the sign, is NaN only on NaN, and has the value `⌊|v|⌋` (as a multiple of `2^1074`). -/
+theorem truncBits_spec (b : Nat) :
+    signBit (truncBits b) = signBit b ∧ isNaN (truncBits b) = isNaN b ∧
+    absScaled (truncBits b) = absScaled b / 2 ^ 1074 * 2 ^ 1074 := by
+  unfold truncBits
+  simp only []
+  by_cases h1 : expField b < 1023
+  · rw [if_pos h1]
+    have hs := signBit_lt b
+    have hN : isNaN b = false := by
+      unfold isNaN; have : ¬ expField b = 2047 := by omega
+      simp [this]
+    have hz : absScaled b / 2 ^ 1074 = 0 := by
+      apply Nat.div_eq_of_lt
+      unfold absScaled
+      have hsig : sig b < 2 ^ 53 := by
+        unfold sig; have := (mag_decomp b).2.1; split <;> omega
+      have hp : 2 ^ (expField b - 1) ≤ 2 ^ 1021 := Nat.pow_le_pow_right (by decide) (by omega)
+      calc sig b * 2 ^ (expField b - 1) ≤ sig b * 2 ^ 1021 := Nat.mul_le_mul_left _ hp
+        _ < 2 ^ 53 * 2 ^ 1021 := Nat.mul_lt_mul_of_pos_right hsig (Nat.two_pow_pos _)
+        _ = 2 ^ 1074 := by rw [← Nat.pow_add]
+    rw [hz, hN, Nat.zero_mul]
+    rcases hs with hs | hs <;> rw [hs] <;> decide
+  · rw [if_neg h1]
+    by_cases h2 : expField b ≥ 1075
+    · rw [if_pos h2]
+      refine ⟨rfl, rfl, ?_⟩
+      unfold absScaled
+      have : 2 ^ (expField b - 1) = 2 ^ (expField b - 1075) * 2 ^ 1074 := by
+        rw [← Nat.pow_add]; congr 1; omega
+      rw [this, ← Nat.mul_assoc, Nat.mul_div_cancel _ (Nat.two_pow_pos _)]
+    · rw [if_neg h2]
+      have hsh : 1075 - expField b ≤ 52 := by omega
+      have hdvd : 2 ^ (1075 - expField b) ∣ 2 ^ 52 := Nat.pow_dvd_pow 2 hsh
+      have hr : b % 2 ^ (1075 - expField b) = fracField b % 2 ^ (1075 - expField b) := by
+        unfold fracField; rw [Nat.mod_mod_of_dvd _ hdvd]
+      have hrle : b % 2 ^ (1075 - expField b) ≤ b % 2 ^ 52 := by
+        rw [hr]; exact Nat.mod_le _ _
+      generalize hrdef : b % 2 ^ (1075 - expField b) = r at *
+      have he : expField (b - r) = expField b := by unfold expField; omega
+      have hf : fracField (b - r) = fracField b - r := by unfold fracField; omega
+      have hs : signBit (b - r) = signBit b := by unfold signBit; omega
+      refine ⟨hs, ?_, ?_⟩
+      · have hne : (expField b == 2047) = false := by
+          have : ¬ expField b = 2047 := by omega
+          simpa using this
+        unfold isNaN; rw [he, hne]; rfl
+      · unfold absScaled sig
+        rw [he, hf]
+        have he0 : ¬ expField b = 0 := by omega
+        simp only [he0, if_false]
+        have hfr : fracField b = b % 2 ^ 52 := rfl
+        -- (2^52 + fr) % 2^sh = r
+        have hmod : (2 ^ 52 + fracField b) % 2 ^ (1075 - expField b) = r := by
+          rw [Nat.add_mod, Nat.mod_eq_zero_of_dvd hdvd, Nat.zero_add, Nat.mod_mod, ← hr]
+        have hdm := Nat.div_add_mod (2 ^ 52 + fracField b) (2 ^ (1075 - expField b))
+        rw [hmod] at hdm
+        have hsig : 2 ^ 52 + (fracField b - r) = (2 ^ 52 + fracField b) / 2 ^ (1075 - expField b) * 2 ^ (1075 - expField b) := by
+          rw [Nat.mul_comm]; omega
+        have hP : (2 : Nat) ^ 1074 = 2 ^ (1075 - expField b) * 2 ^ (expField b - 1) := by
+          rw [← Nat.pow_add]; congr 1; omega
+        rw [hsig, hP, Nat.mul_div_mul_right _ _ (Nat.two_pow_pos _), Nat.mul_assoc]
+
+
+end Grafeo.F64
 
 namespace Grafeo.Val
 open Grafeo.F64
@@ -77,17 +295,509 @@ theorem c16_ordered_float_zero_nan_instances :
 
 /-! ### OrderableValue -/
 
-/-- W: `OrderableValue`'s equality is **not transitive** across Int/Float (2^53+1 rounds to
-2^53), and equal values of different variants feed different hash input. -/
-theorem c16_orderable_eq_not_transitive_witness :
-    ovEq (.int 9007199254740993) (.float 0x4340000000000000) = true ∧
-    ovEq (.float 0x4340000000000000) (.int 9007199254740992) = true ∧
-    ovEq (.int 9007199254740993) (.int 9007199254740992) = false := by decide
+theorem ofCmp_eq_compare (a b : Nat) : ofCmp a b = compare (fRank a) (fRank b) := by
+  unfold ofCmp fRank
+  cases ha : isNaN a <;> cases hb : isNaN b <;> simp only [if_true, if_false, Bool.false_eq_true]
+  · simp [partialCmp, ha, hb, compare_key]
+  · have := scaled_bound a ha
+    exact (Int.compare_eq_lt.mpr (by omega)).symm
+  · have := scaled_bound b hb
+    exact (Int.compare_eq_gt.mpr (by omega)).symm
+  · exact (Int.compare_eq_eq.mpr rfl).symm
 
-theorem c16_orderable_int_float_hash_witness :
+theorem scaled_twoPow63 : scaled twoPow63 = 2 ^ 1137 := by decide
+theorem scaled_negTwoPow63 : scaled negTwoPow63 = -(2 ^ 1137) := by decide
+
+theorem fge_twoPow63 (b : Nat) (h : isNaN b = false) : fge b twoPow63 = decide (2 ^ 1137 ≤ scaled b) := by
+  have hK : isNaN twoPow63 = false := by decide
+  unfold fge; rw [h, hK]
+  have := key_le_iff twoPow63 b
+  rw [scaled_twoPow63] at this
+  simp [this]
+
+theorem flt_negTwoPow63 (b : Nat) (h : isNaN b = false) : flt b negTwoPow63 = decide (scaled b < -(2 ^ 1137)) := by
+  have hK : isNaN negTwoPow63 = false := by decide
+  unfold flt; rw [h, hK]
+  have := key_lt_iff b negTwoPow63
+  rw [scaled_negTwoPow63] at this
+  simp [this]
+
+theorem fge_negTwoPow63 (b : Nat) (h : isNaN b = false) : fge b negTwoPow63 = decide (-(2 ^ 1137) ≤ scaled b) := by
+  have hK : isNaN negTwoPow63 = false := by decide
+  unfold fge; rw [h, hK]
+  have := key_le_iff negTwoPow63 b
+  rw [scaled_negTwoPow63] at this
+  simp [this]
+
+theorem flt_twoPow63 (b : Nat) (h : isNaN b = false) : flt b twoPow63 = decide (scaled b < 2 ^ 1137) := by
+  have hK : isNaN twoPow63 = false := by decide
+  unfold flt; rw [h, hK]
+  have := key_lt_iff b twoPow63
+  rw [scaled_twoPow63] at this
+  simp [this]
+
+/-- `f as i64` of an in-range pattern is the integer part of its value -/
+theorem f64ToI64_inRange (b : Nat) (h : isNaN b = false)
+    (hlo : -(2 ^ 1137 : Int) ≤ scaled b) (hhi : scaled b < 2 ^ 1137) :
+    f64ToI64 b = if signBit b = 1 then -((absScaled b / 2 ^ 1074 : Nat) : Int) else ((absScaled b / 2 ^ 1074 : Nat) : Int) := by
+  unfold f64ToI64
+  simp only [h, Bool.false_eq_true, if_false]
+  unfold scaled at hlo hhi
+  generalize absScaled b = A at *
+  split <;> simp_all <;> omega
+
+
+/-- **exactness**: the repaired `cmp_i64_f64` compares the integer `i` and the float `b` as
+numbers (both scaled by `2^1074`; NaN above everything). -/
+theorem cmpI64F64_eq_compare (i : Int) (b : Nat) (hi : inI64 i) :
+    cmpI64F64 i b = compare (i * 2 ^ 1074) (fRank b) := by
+  unfold inI64 at hi
+  unfold cmpI64F64 fRank
+  cases hN : isNaN b
+  · simp only [Bool.false_or, Bool.false_eq_true, if_false]
+    rw [fge_twoPow63 b hN, flt_negTwoPow63 b hN]
+    by_cases h1 : (2 : Int) ^ 1137 ≤ scaled b
+    · simp only [h1, decide_true, if_true]
+      exact (Int.compare_eq_lt.mpr (by omega)).symm
+    · simp only [h1, decide_false, Bool.false_eq_true, if_false]
+      by_cases h2 : scaled b < -(2 ^ 1137 : Int)
+      · simp only [h2, decide_true, if_true]
+        exact (Int.compare_eq_gt.mpr (by omega)).symm
+      · simp only [h2, decide_false, Bool.false_eq_true, if_false]
+        obtain ⟨hs, hn, hA⟩ := truncBits_spec b
+        rw [hN] at hn
+        -- the integral float `whole` has the value ±(A / P) · P
+        have hw : scaled (truncBits b) = if signBit b = 1 then -((absScaled b / 2 ^ 1074 * 2 ^ 1074 : Nat) : Int) else ((absScaled b / 2 ^ 1074 * 2 ^ 1074 : Nat) : Int) := by
+          unfold scaled; rw [hs, hA]
+        have hwlo : -(2 ^ 1137 : Int) ≤ scaled (truncBits b) := by
+          rw [hw]; unfold scaled at h2; generalize absScaled b = A at *; split <;> simp_all <;> omega
+        have hwhi : scaled (truncBits b) < (2 ^ 1137 : Int) := by
+          rw [hw]; unfold scaled at h1; generalize absScaled b = A at *; split <;> simp_all <;> omega
+        rw [f64ToI64_inRange _ hn hwlo hwhi, hs, hA, Nat.mul_div_cancel _ (Nat.two_pow_pos _)]
+        have hp : partialCmp (truncBits b) b = some (compare (scaled (truncBits b)) (scaled b)) := by
+          unfold partialCmp; simp [hn, hN, compare_key]
+        rw [hp, hw]
+        simp only [Option.getD_some]
+        unfold scaled at h1 h2 ⊢
+        generalize absScaled b = A at *
+        rcases signBit_lt b with hsb | hsb <;> simp only [hsb, if_true, if_false, Nat.zero_ne_one] at h1 h2 ⊢
+        · rcases Int.lt_trichotomy i ((A / 2 ^ 1074 : Nat) : Int) with h | h | h
+          · rw [Int.compare_eq_lt.mpr h]; exact (Int.compare_eq_lt.mpr (by omega)).symm
+          · rw [Int.compare_eq_eq.mpr h]
+            have e : ((A / 2 ^ 1074 * 2 ^ 1074 : Nat) : Int) = i * 2 ^ 1074 := by omega
+            simp only []; rw [e]
+          · rw [Int.compare_eq_gt.mpr h]; exact (Int.compare_eq_gt.mpr (by omega)).symm
+        · rcases Int.lt_trichotomy i (-((A / 2 ^ 1074 : Nat) : Int)) with h | h | h
+          · rw [Int.compare_eq_lt.mpr h]; exact (Int.compare_eq_lt.mpr (by omega)).symm
+          · rw [Int.compare_eq_eq.mpr h]
+            have e : -((A / 2 ^ 1074 * 2 ^ 1074 : Nat) : Int) = i * 2 ^ 1074 := by omega
+            simp only []; rw [e]
+          · rw [Int.compare_eq_gt.mpr h]; exact (Int.compare_eq_gt.mpr (by omega)).symm
+  · simp only [Bool.true_or, if_true]
+    exact (Int.compare_eq_lt.mpr (by omega)).symm
+
+
+/-- `f64_as_exact_i64` returns `i` exactly when the float's value is the `i64` `i`. -/
+theorem f64AsExactI64_eq_some_iff (b : Nat) (i : Int) :
+    f64AsExactI64 b = some i ↔ (fRank b = i * 2 ^ 1074 ∧ inI64 i) := by
+  unfold f64AsExactI64 fRank inI64
+  cases hN : isNaN b
+  · simp only [Bool.false_eq_true, if_false]
+    rw [fge_negTwoPow63 b hN, flt_twoPow63 b hN]
+    obtain ⟨hs, hn, hA⟩ := truncBits_spec b
+    rw [hN] at hn
+    have hfeq : feq (truncBits b) b = decide (scaled (truncBits b) = scaled b) := by
+      unfold feq; rw [hn, hN]
+      have := key_eq_iff (truncBits b) b
+      rw [Bool.eq_iff_iff]; simp only [Bool.not_false, Bool.true_and, beq_iff_eq, decide_eq_true_eq]; exact this
+    have hw : scaled (truncBits b) = if signBit b = 1 then -((absScaled b / 2 ^ 1074 * 2 ^ 1074 : Nat) : Int) else ((absScaled b / 2 ^ 1074 * 2 ^ 1074 : Nat) : Int) := by
+      unfold scaled; rw [hs, hA]
+    rw [hfeq, hw]
+    by_cases hlo : -(2 ^ 1137 : Int) ≤ scaled b
+    · by_cases hhi : scaled b < (2 ^ 1137 : Int)
+      · rw [f64ToI64_inRange b hN hlo hhi]
+        unfold scaled at hlo hhi ⊢
+        generalize absScaled b = A at *
+        rcases signBit_lt b with hsb | hsb <;> simp only [hsb, if_true, if_false, Nat.zero_ne_one] at hlo hhi ⊢
+        · by_cases hd : ((A / 2 ^ 1074 * 2 ^ 1074 : Nat) : Int) = (A : Int)
+          · simp only [hlo, hhi, hd, decide_true, Bool.and_self, if_true, Option.some.injEq]
+            omega
+          · simp only [hd, decide_false, Bool.and_false, Bool.false_eq_true, if_false, reduceCtorEq, false_iff]
+            omega
+        · by_cases hd : -((A / 2 ^ 1074 * 2 ^ 1074 : Nat) : Int) = -(A : Int)
+          · simp only [hlo, hhi, hd, decide_true, Bool.and_self, if_true, Option.some.injEq]
+            omega
+          · simp only [hd, decide_false, Bool.and_false, Bool.false_eq_true, if_false, reduceCtorEq, false_iff]
+            omega
+      · simp only [hhi, decide_false, Bool.and_false, Bool.false_and, Bool.false_eq_true, if_false, reduceCtorEq, false_iff]
+        omega
+    · simp only [hlo, decide_false, Bool.false_and, Bool.false_eq_true, if_false, reduceCtorEq, false_iff]
+      omega
+  · have h1 : fge b negTwoPow63 = false := by unfold fge; simp [hN]
+    simp only [h1, Bool.false_and, Bool.false_eq_true, if_false, if_true, reduceCtorEq, false_iff]
+    omega
+
+
+/-! ### byte strings -/
+
+theorem cmpBytes_eq_iff : ∀ (a b : List Nat), cmpBytes a b = .eq ↔ a = b
+  | [], [] => by simp [cmpBytes]
+  | [], _ :: _ => by simp [cmpBytes]
+  | _ :: _, [] => by simp [cmpBytes]
+  | x :: xs, y :: ys => by
+    unfold cmpBytes
+    by_cases h1 : x < y
+    · simp only [h1, if_true, reduceCtorEq, false_iff, List.cons.injEq]; omega
+    · by_cases h2 : x > y
+      · simp only [h1, h2, if_true, if_false, reduceCtorEq, false_iff, List.cons.injEq]; omega
+      · have : x = y := by omega
+        subst this
+        simp only [Nat.lt_irrefl, gt_iff_lt, if_false, List.cons.injEq, true_and]
+        exact cmpBytes_eq_iff xs ys
+
+theorem cmpBytes_swap : ∀ (a b : List Nat), cmpBytes b a = (cmpBytes a b).swap
+  | [], [] => by simp [cmpBytes]
+  | [], _ :: _ => by simp [cmpBytes]
+  | _ :: _, [] => by simp [cmpBytes]
+  | x :: xs, y :: ys => by
+    unfold cmpBytes
+    by_cases h1 : x < y
+    · have : ¬ y < x := by omega
+      simp [h1, this]
+    · by_cases h2 : x > y
+      · simp [h1, h2]
+      · have h3 : ¬ y < x := by omega
+        have h4 : ¬ y > x := by omega
+        have : x = y := by omega
+        subst this
+        simp only [Nat.lt_irrefl, gt_iff_lt, if_false]
+        exact cmpBytes_swap xs ys
+
+theorem cmpBytes_trans : ∀ (a b c : List Nat),
+    cmpBytes a b ≠ .gt → cmpBytes b c ≠ .gt → cmpBytes a c ≠ .gt
+  | [], _, [] => by simp [cmpBytes]
+  | [], _, _ :: _ => by simp [cmpBytes]
+  | _ :: _, [], _ => by simp [cmpBytes]
+  | _ :: _, _ :: _, [] => by simp [cmpBytes]
+  | x :: xs, y :: ys, z :: zs => by
+    unfold cmpBytes
+    intro h1 h2
+    by_cases xy : x < y
+    · by_cases yz : y < z
+      · have : x < z := by omega
+        simp [this]
+      · by_cases yz' : y > z
+        · simp [yz, yz'] at h2
+        · have : x < z := by omega
+          simp [this]
+    · by_cases xy' : x > y
+      · simp [xy, xy'] at h1
+      · have exy : x = y := by omega
+        subst exy
+        by_cases yz : x < z
+        · simp [yz]
+        · by_cases yz' : x > z
+          · simp [yz, yz'] at h2
+          · have : x = z := by omega
+            subst this
+            simp only [Nat.lt_irrefl, gt_iff_lt, if_false] at h1 h2 ⊢
+            exact cmpBytes_trans xs ys zs h1 h2
+
+/-! ### the order key of an `OrderableValue` (`ovKey`, `keyCmp` in `Model/Val.lean`) -/
+
+theorem keyCmp_eq_iff (x y : OKey) : keyCmp x y = .eq ↔ x = y := by
+  unfold keyCmp
+  rw [Ordering.then_eq_eq, Ordering.then_eq_eq, Nat.compare_eq_eq, Int.compare_eq_eq, cmpBytes_eq_iff]
+  cases x; cases y; simp
+
+theorem keyCmp_swap (x y : OKey) : keyCmp y x = (keyCmp x y).swap := by
+  unfold keyCmp
+  rw [Ordering.swap_then, Ordering.swap_then, Nat.compare_swap, Int.compare_swap, ← cmpBytes_swap]
+
+theorem keyCmp_ne_gt_iff (x y : OKey) : keyCmp x y ≠ .gt ↔
+    (x.cls < y.cls ∨ (x.cls = y.cls ∧ (x.num < y.num ∨ (x.num = y.num ∧ cmpBytes x.str y.str ≠ .gt)))) := by
+  unfold keyCmp
+  rw [Ne, Ordering.then_eq_gt, Ordering.then_eq_gt, Nat.compare_eq_gt, Nat.compare_eq_eq, Int.compare_eq_gt, Int.compare_eq_eq]
+  constructor
+  · intro h
+    rcases Nat.lt_trichotomy x.cls y.cls with h1 | h1 | h1
+    · exact Or.inl h1
+    · refine Or.inr ⟨h1, ?_⟩
+      rcases Int.lt_trichotomy x.num y.num with h2 | h2 | h2
+      · exact Or.inl h2
+      · exact Or.inr ⟨h2, fun hg => h (Or.inr ⟨h1, Or.inr ⟨h2, hg⟩⟩)⟩
+      · exact absurd (Or.inr ⟨h1, Or.inl h2⟩) h
+    · exact absurd (Or.inl h1) h
+  · intro h hg
+    rcases h with h | ⟨h1, h | ⟨h2, h3⟩⟩
+    · rcases hg with hg | ⟨hg, _⟩ <;> omega
+    · rcases hg with hg | ⟨_, hg | ⟨hg, _⟩⟩ <;> omega
+    · rcases hg with hg | ⟨_, hg | ⟨_, hg⟩⟩
+      · omega
+      · omega
+      · exact h3 hg
+
+theorem keyCmp_trans (x y z : OKey) : keyCmp x y ≠ .gt → keyCmp y z ≠ .gt → keyCmp x z ≠ .gt := by
+  rw [keyCmp_ne_gt_iff, keyCmp_ne_gt_iff, keyCmp_ne_gt_iff]
+  intro h1 h2
+  rcases h1 with h1 | ⟨c1, h1⟩
+  · rcases h2 with h2 | ⟨c2, _⟩ <;> exact Or.inl (by omega)
+  · rcases h2 with h2 | ⟨c2, h2⟩
+    · exact Or.inl (by omega)
+    · refine Or.inr ⟨by omega, ?_⟩
+      rcases h1 with h1 | ⟨n1, h1⟩
+      · rcases h2 with h2 | ⟨n2, _⟩ <;> exact Or.inl (by omega)
+      · rcases h2 with h2 | ⟨n2, h2⟩
+        · exact Or.inl (by omega)
+        · exact Or.inr ⟨by omega, cmpBytes_trans _ _ _ h1 h2⟩
+
+theorem compare_mul_P (a b : Int) : compare (a * 2 ^ 1074) (b * 2 ^ 1074) = compare a b := by
+  rcases Int.lt_trichotomy a b with h | h | h
+  · rw [Int.compare_eq_lt.mpr h]; exact Int.compare_eq_lt.mpr (by omega)
+  · rw [Int.compare_eq_eq.mpr h]; exact Int.compare_eq_eq.mpr (by omega)
+  · rw [Int.compare_eq_gt.mpr h]; exact Int.compare_eq_gt.mpr (by omega)
+
+theorem cmpBytes_nil : cmpBytes [] [] = .eq := rfl
+
+/-- `cmp` is the lexicographic order of the keys -/
+theorem ovCmp_eq_keyCmp (a b : OV) (ha : a.inRange) (hb : b.inRange) :
+    ovCmp a b = keyCmp (ovKey a) (ovKey b) := by
+  cases a with
+  | int x => cases b with
+    | int y => simp only [ovCmp, ovKey, keyCmp, cmpBytes_nil, Ordering.then_eq, compare_mul_P]; rfl
+    | float y => simp only [ovCmp, ovKey, keyCmp, cmpBytes_nil, Ordering.then_eq, cmpI64F64_eq_compare x y ha]; rfl
+    | str y => rfl
+    | bool y => rfl
+    | ts y => rfl
+  | float x => cases b with
+    | int y =>
+      simp only [ovCmp, ovKey, keyCmp, cmpBytes_nil, Ordering.then_eq, cmpI64F64_eq_compare y x hb]
+      rw [Int.compare_swap]; rfl
+    | float y => simp only [ovCmp, ovKey, keyCmp, cmpBytes_nil, Ordering.then_eq, ofCmp_eq_compare]; rfl
+    | str y => rfl
+    | bool y => rfl
+    | ts y => rfl
+  | str x => cases b with
+    | str y => simp only [ovCmp, ovKey, keyCmp]; rfl
+    | int y => rfl
+    | float y => rfl
+    | bool y => rfl
+    | ts y => rfl
+  | bool x => cases b with
+    | bool y => cases x <;> cases y <;> rfl
+    | int y => rfl
+    | float y => rfl
+    | str y => rfl
+    | ts y => rfl
+  | ts x => cases b with
+    | ts y => simp only [ovCmp, ovKey, keyCmp, cmpBytes_nil, Ordering.then_eq]; rfl
+    | int y => rfl
+    | float y => rfl
+    | str y => rfl
+    | bool y => rfl
+
+
+theorem ovEq_iff_key (a b : OV) (ha : a.inRange) (hb : b.inRange) :
+    ovEq a b = true ↔ ovKey a = ovKey b := by
+  cases a with
+  | int x => cases b with
+    | int y => simp only [ovEq, ovKey, beq_iff_eq, OKey.mk.injEq, true_and, and_true]; omega
+    | float y =>
+      simp only [ovEq, ovKey, beq_iff_eq, OKey.mk.injEq, true_and, and_true,
+        cmpI64F64_eq_compare x y ha, Int.compare_eq_eq]
+    | str y => simp [ovEq, ovKey]
+    | bool y => simp [ovEq, ovKey]
+    | ts y => simp [ovEq, ovKey]
+  | float x => cases b with
+    | int y =>
+      simp only [ovEq, ovKey, beq_iff_eq, OKey.mk.injEq, true_and, and_true,
+        cmpI64F64_eq_compare y x hb, Int.compare_eq_eq]
+      exact eq_comm
+    | float y =>
+      simp only [ovEq, ovKey, OKey.mk.injEq, true_and, and_true]
+      rw [← ofCmp_eq_iff, ofCmp_eq_compare, Int.compare_eq_eq]
+    | str y => simp [ovEq, ovKey]
+    | bool y => simp [ovEq, ovKey]
+    | ts y => simp [ovEq, ovKey]
+  | str x => cases b <;> simp [ovEq, ovKey]
+  | bool x => cases b with
+    | bool y => cases x <;> cases y <;> simp [ovEq, ovKey]
+    | int y => simp [ovEq, ovKey]
+    | float y => simp [ovEq, ovKey]
+    | str y => simp [ovEq, ovKey]
+    | ts y => simp [ovEq, ovKey]
+  | ts x => cases b <;> simp [ovEq, ovKey]
+
+/-- F: `OrderableValue::eq` is an equivalence relation on every value of the type (all `i64`, all
+2^64 float patterns, strings, booleans, timestamps; any mix of variants). -/
+theorem c16_orderable_eq_equivalence (a b c : OV) (ha : a.inRange) (hb : b.inRange) (hc : c.inRange) :
+    ovEq a a = true ∧ (ovEq a b = ovEq b a) ∧
+    (ovEq a b = true → ovEq b c = true → ovEq a c = true) := by
+  refine ⟨(ovEq_iff_key a a ha ha).mpr rfl, ?_, ?_⟩
+  · rw [Bool.eq_iff_iff, ovEq_iff_key a b ha hb, ovEq_iff_key b a hb ha]; exact eq_comm
+  · intro h1 h2
+    exact (ovEq_iff_key a c ha hc).mpr
+      (((ovEq_iff_key a b ha hb).mp h1).trans ((ovEq_iff_key b c hb hc).mp h2))
+
+/-- F: `OrderableValue::cmp` is a total order consistent with `eq`, on every value of the type:
+`cmp = Equal ⇔ eq`; reflexive; antisymmetric (`cmp b a` is the reverse of `cmp a b`, so two values
+that are each `≤` the other are `eq`); total; transitive; and it respects `eq` (equal values
+compare alike against anything). -/
+theorem c16_orderable_total_order (a b c : OV) (ha : a.inRange) (hb : b.inRange) (hc : c.inRange) :
+    (ovCmp a b = .eq ↔ ovEq a b = true) ∧
+    ovCmp a a = .eq ∧
+    (ovCmp b a = (ovCmp a b).swap) ∧
+    (ovCmp a b ≠ .gt → ovCmp b a ≠ .gt → ovEq a b = true) ∧
+    (ovCmp a b ≠ .gt ∨ ovCmp b a ≠ .gt) ∧
+    (ovCmp a b ≠ .gt → ovCmp b c ≠ .gt → ovCmp a c ≠ .gt) ∧
+    (ovEq a b = true → ovCmp a c = ovCmp b c ∧ ovCmp c a = ovCmp c b) := by
+  have hiff : ovCmp a b = .eq ↔ ovEq a b = true := by
+    rw [ovCmp_eq_keyCmp a b ha hb, keyCmp_eq_iff, ovEq_iff_key a b ha hb]
+  have hswap : ovCmp b a = (ovCmp a b).swap := by
+    rw [ovCmp_eq_keyCmp a b ha hb, ovCmp_eq_keyCmp b a hb ha]; exact keyCmp_swap _ _
+  refine ⟨hiff, ?_, hswap, ?_, ?_, ?_, ?_⟩
+  · rw [ovCmp_eq_keyCmp a a ha ha, keyCmp_eq_iff]
+  · intro h1 h2
+    apply hiff.mp
+    rw [hswap] at h2
+    cases h : ovCmp a b <;> simp_all
+  · rw [hswap]; cases ovCmp a b <;> simp
+  · rw [ovCmp_eq_keyCmp a b ha hb, ovCmp_eq_keyCmp b c hb hc, ovCmp_eq_keyCmp a c ha hc]
+    exact keyCmp_trans _ _ _
+  · intro h
+    have hk := (ovEq_iff_key a b ha hb).mp h
+    rw [ovCmp_eq_keyCmp a c ha hc, ovCmp_eq_keyCmp b c hb hc, ovCmp_eq_keyCmp c a hc ha,
+      ovCmp_eq_keyCmp c b hc hb, hk]
+    exact ⟨rfl, rfl⟩
+
+/-- F: equal `OrderableValue`s feed the hasher identically — every value of the type, any mix of
+variants (`Int64(1)` / `Float64(1.0)`, `Int64(0)` / `Float64(-0.0)`, `Int64(i64::MIN)` /
+`Float64(-2^63)`, NaNs with different payloads, …). -/
+theorem c16_orderable_eq_imp_hash_eq (a b : OV) (ha : a.inRange) (hb : b.inRange)
+    (h : ovEq a b = true) : ovHashFeed a = ovHashFeed b := by
+  have hk := (ovEq_iff_key a b ha hb).mp h
+  cases a with
+  | int x => cases b with
+    | int y =>
+      simp only [ovKey, OKey.mk.injEq, true_and, and_true] at hk
+      have : x = y := by omega
+      rw [this]
+    | float y =>
+      simp only [ovKey, OKey.mk.injEq, true_and, and_true] at hk
+      have := (f64AsExactI64_eq_some_iff y x).mpr ⟨hk.symm, ha⟩
+      simp only [ovHashFeed, this]
+    | str y => simp [ovKey] at hk
+    | bool y => simp [ovKey] at hk
+    | ts y => simp [ovKey] at hk
+  | float x => cases b with
+    | int y =>
+      simp only [ovKey, OKey.mk.injEq, true_and, and_true] at hk
+      have := (f64AsExactI64_eq_some_iff x y).mpr ⟨hk, hb⟩
+      simp only [ovHashFeed, this]
+    | float y =>
+      simp only [ovKey, OKey.mk.injEq, true_and, and_true] at hk
+      have hex : f64AsExactI64 x = f64AsExactI64 y := by
+        cases hx : f64AsExactI64 x with
+        | some i =>
+          have := (f64AsExactI64_eq_some_iff x i).mp hx
+          exact ((f64AsExactI64_eq_some_iff y i).mpr ⟨hk ▸ this.1, this.2⟩).symm
+        | none =>
+          cases hy : f64AsExactI64 y with
+          | none => rfl
+          | some j =>
+            have := (f64AsExactI64_eq_some_iff y j).mp hy
+            have := (f64AsExactI64_eq_some_iff x j).mpr ⟨hk.symm ▸ this.1, this.2⟩
+            rw [hx] at this; exact this
+      have hfeed : ofHashFeed x = ofHashFeed y :=
+        c16_ordered_float_eq_imp_hash_eq x y ha hb (by simpa [ovEq] using h)
+      simp only [ovHashFeed, hex, hfeed]
+    | str y => simp [ovKey] at hk
+    | bool y => simp [ovKey] at hk
+    | ts y => simp [ovKey] at hk
+  | str x => cases b <;> simp [ovKey] at hk; subst hk; rfl
+  | bool x => cases b with
+    | bool y => cases x <;> cases y <;> simp [ovKey] at hk <;> rfl
+    | int y => simp [ovKey] at hk
+    | float y => simp [ovKey] at hk
+    | str y => simp [ovKey] at hk
+    | ts y => simp [ovKey] at hk
+  | ts x => cases b <;> simp [ovKey] at hk; subst hk; rfl
+
+/-- F: **exactness** of the cross-type comparison. For an `i64` `i` and any float pattern `b`:
+NaN is above `i`; otherwise `cmp` is the comparison of the two exact values (`scaled b` is the
+float's value times `2^1074`, an integer) — no rounding anywhere; and `==` is equality of values. -/
+theorem c16_orderable_int_float_exact (i : Int) (b : Nat) (hi : inI64 i) :
+    (isNaN b = true → ovCmp (.int i) (.float b) = .lt ∧ ovEq (.int i) (.float b) = false) ∧
+    (isNaN b = false →
+      ovCmp (.int i) (.float b) = compare (i * 2 ^ 1074) (scaled b) ∧
+      ovCmp (.float b) (.int i) = compare (scaled b) (i * 2 ^ 1074) ∧
+      (ovEq (.int i) (.float b) = true ↔ scaled b = i * 2 ^ 1074) ∧
+      (ovEq (.float b) (.int i) = true ↔ scaled b = i * 2 ^ 1074)) := by
+  have hc := cmpI64F64_eq_compare i b hi
+  unfold inI64 at hi
+  constructor
+  · intro hN
+    have hlt : cmpI64F64 i b = .lt := by
+      rw [hc]; unfold fRank; rw [hN]; exact Int.compare_eq_lt.mpr (by simp only [if_true]; omega)
+    simp [ovCmp, ovEq, hlt]
+  · intro hN
+    have hr : fRank b = scaled b := by unfold fRank; simp [hN]
+    rw [hr] at hc
+    refine ⟨by simp only [ovCmp, hc], ?_, ?_, ?_⟩
+    · simp only [ovCmp, hc]; exact Int.compare_swap _ _
+    · simp only [ovEq, hc, beq_iff_eq, Int.compare_eq_eq]; exact eq_comm
+    · simp only [ovEq, hc, beq_iff_eq, Int.compare_eq_eq]; exact eq_comm
+
+/-- F: the sign–magnitude key that `f64` comparison is modelled with orders patterns exactly as
+their values are ordered (`−0` and `+0` share the value 0). -/
+theorem c16_f64_key_orders_values (a b : Nat) :
+    compare (key a) (key b) = compare (scaled a) (scaled b) := compare_key a b
+
+/-- N: what the repaired code does on the old witnesses and on the boundary cases. -/
+theorem c16_orderable_repaired_instances :
+    -- 2^53 + 1 against 2^53 as a float
+    ovEq (.int 9007199254740993) (.float 0x4340000000000000) = false ∧
+    ovCmp (.int 9007199254740993) (.float 0x4340000000000000) = .gt ∧
+    ovEq (.float 0x4340000000000000) (.int 9007199254740992) = true ∧
+    -- 1 and 1.0 are equal and hash alike
     ovEq (.int 1) (.float 0x3FF0000000000000) = true ∧
     ovCmp (.int 1) (.float 0x3FF0000000000000) = .eq ∧
-    ovHashFeed (.int 1) ≠ ovHashFeed (.float 0x3FF0000000000000) := by decide
+    ovHashFeed (.int 1) = ovHashFeed (.float 0x3FF0000000000000) ∧
+    -- both zeros equal Int64(0) and hash as it does
+    ovEq (.int 0) (.float 0x8000000000000000) = true ∧
+    ovCmp (.float 0x8000000000000000) (.int 0) = .eq ∧
+    ovHashFeed (.float 0x8000000000000000) = ovHashFeed (.int 0) ∧
+    ovHashFeed (.float 0) = ovHashFeed (.int 0) ∧
+    -- 2^63 is above i64::MAX, -2^63 is i64::MIN
+    ovCmp (.int 9223372036854775807) (.float 0x43E0000000000000) = .lt ∧
+    ovEq (.int (-9223372036854775808)) (.float 0xC3E0000000000000) = true ∧
+    ovHashFeed (.int (-9223372036854775808)) = ovHashFeed (.float 0xC3E0000000000000) ∧
+    -- fractional floats sit strictly between their neighbours; infinities and NaN outside
+    ovCmp (.int 2) (.float 0x4004000000000000) = .lt ∧
+    ovCmp (.int 3) (.float 0x4004000000000000) = .gt ∧
+    ovCmp (.int (-3)) (.float 0xC004000000000000) = .lt ∧
+    ovCmp (.int (-2)) (.float 0xC004000000000000) = .gt ∧
+    ovCmp (.int 0) (.float 1) = .lt ∧
+    ovCmp (.int 0) (.float 0x8000000000000001) = .gt ∧
+    ovCmp (.int 9223372036854775807) (.float 0x7FF0000000000000) = .lt ∧
+    ovCmp (.int (-9223372036854775808)) (.float 0xFFF0000000000000) = .gt ∧
+    ovCmp (.int 9223372036854775807) (.float 0x7FF8000000000000) = .lt ∧
+    -- a float that equals no integer keeps the Float64 feed
+    ovHashFeed (.float 0x3FF8000000000000) = [1, 0x3FF8000000000000] ∧
+    ovHashFeed (.float 0x43E0000000000000) = [1, 0x43E0000000000000] := by decide
+
+/-- N: `scaled` is the value: 1.0, 2.5, the least subnormal, 2^53, and the `i64 as f64` model
+agree with it where the conversion is exact. -/
+theorem c16_scaled_instances :
+    scaled 0x3FF0000000000000 = 2 ^ 1074 ∧ scaled 0x4004000000000000 = 5 * 2 ^ 1073 ∧
+    scaled 1 = 1 ∧ scaled 0x8000000000000001 = -1 ∧ scaled 0x8000000000000000 = 0 ∧
+    scaled (i64ToF64 9007199254740992) = 9007199254740992 * 2 ^ 1074 ∧
+    scaled (i64ToF64 (-9223372036854775808)) = -9223372036854775808 * 2 ^ 1074 ∧
+    scaled (i64ToF64 (-3)) = -3 * 2 ^ 1074 ∧
+    truncBits 0x4004000000000000 = 0x4000000000000000 ∧
+    truncBits 0xBFE0000000000000 = 0x8000000000000000 ∧
+    f64ToI64 0xC3E0000000000000 = -9223372036854775808 ∧
+    f64ToI64 0x43E0000000000000 = 9223372036854775807 := by decide
 
 /-- P: within one variant other than Float64, equality is identity, so equal values hash equally
 and `cmp = Equal ⇔ eq`. -/
@@ -99,6 +809,33 @@ theorem c16_orderable_same_variant_partial (a b : OV) (hd : a.discr = b.discr)
   · subst h; exact ⟨rfl, rfl⟩
   · subst h; exact ⟨rfl, rfl⟩
   · subst h; exact ⟨rfl, rfl⟩
+
+/-! ### OrderableValue before the repair: regression witnesses -/
+
+namespace Old
+
+/-- W (pinned code): `OrderableValue`'s equality was **not transitive** across Int/Float
+(2^53+1 rounds to 2^53). -/
+theorem c16_orderable_eq_not_transitive_witness :
+    Old.ovEq (.int 9007199254740993) (.float 0x4340000000000000) = true ∧
+    Old.ovEq (.float 0x4340000000000000) (.int 9007199254740992) = true ∧
+    Old.ovEq (.int 9007199254740993) (.int 9007199254740992) = false := by decide
+
+/-- W (pinned code): equal values of different variants fed different hash input. -/
+theorem c16_orderable_int_float_hash_witness :
+    Old.ovEq (.int 1) (.float 0x3FF0000000000000) = true ∧
+    Old.ovCmp (.int 1) (.float 0x3FF0000000000000) = .eq ∧
+    Old.ovHashFeed (.int 1) ≠ Old.ovHashFeed (.float 0x3FF0000000000000) := by decide
+
+/-- W (pinned code): `cmp` said `Equal` for two values whose integers differ, and `i64::MAX`
+was equal to the float `2^63`. -/
+theorem c16_orderable_cmp_lossy_witness :
+    Old.ovCmp (.int 9007199254740993) (.float 0x4340000000000000) = .eq ∧
+    Old.ovCmp (.float 0x4340000000000000) (.int 9007199254740992) = .eq ∧
+    Old.ovCmp (.int 9007199254740993) (.int 9007199254740992) = .gt ∧
+    Old.ovEq (.int 9223372036854775807) (.float 0x43E0000000000000) = true := by decide
+
+end Old
 
 /-! ### HashableValue -/
 
